@@ -1,7 +1,1627 @@
-//! C08 — not implemented yet (stub).
-use crate::engine::Args;
+//! C08 — workers answer each command exactly once and converge on the master's view (DESIGN §4 C08).
+//!
+//! Wire lab, command plane. One scenario = one fresh worker thread (`LabWorker`): a generated
+//! sequence of worker requests is written on its command channel in bursts (optionally with HTTP
+//! traffic between the write and the read of a burst); every answer is recorded. Oracles:
+//! (1) exactly one final answer per id, no foreign id; (2) the worker's queryable view equals a
+//! `ConfigState` fed the commands the worker answered Ok; (3) listening sockets and one routed
+//! probe request match that model; (4) SoftStop / HardStop end the worker thread.
+//!
+//! Known deviations (each has a strict reproducer under /verif/regressions/C08/ and is excluded by
+//! construction when `strict` is false, so that the search goes on):
+//!  K1 `C08/worker-panicked:lib/src/server.rs:2121`  RemoveListener with base_sessions_count == 0
+//!  K2 `C08/softstop-never-finishes:listener-removed` RemoveListener leaves the listen slab entry behind
+//!  K3 `C08/unanswered-before-hardstop:<verb>`        answers queued in the same read batch as HardStop are lost
+//!  K4 `C08/view-differs-after-failure:<verb>`        a Failure answer leaves the worker's ConfigState changed
+//!  K5 `C08/route-differs-from-view:listener-readded` frontends survive in the view, not in a re-added listener
+//!  K6 `C08/worker-panicked:lib/src/metrics/mod.rs:638` renewing a SetMetricDetail lease at a lower level trips a debug assertion
+//!  K7 `C08/route-differs-from-view:listener-reactivated` a listener activated again after DeactivateListener never accepts
+//!  K8 `C08/worker-panicked:lib/src/protocol/mux/h2.rs:1026` Add*Listener accepts a zero H2 flood threshold, the first session asserts
+//!
+//! `vp C08 --shard 0/1 --emit-known` re-runs the strict reproducers (`known_cases`) and rewrites the regression files.
 
-pub fn run(_args: &Args) -> i32 {
-    println!("INCONCLUSIVE: C08 has no check yet");
-    2
+use std::{
+    collections::{BTreeMap, BTreeSet},
+    io::Write,
+    net::{SocketAddr, TcpListener, TcpStream, UdpSocket},
+    sync::Mutex,
+    time::{Duration, Instant},
+};
+
+use proptest::prelude::*;
+use serde::{Deserialize, Serialize};
+use sozu_command_lib::{
+    proto::command::{
+        ActivateListener, AddBackend, Cluster, HardStop, ListenerType, LoadBalancingParams, PathRule, QueryCertificatesFilters,
+        QueryClusterByDomain, QueryClustersHashes, QueryMaxConnectionsPerIp, QueryMetricsOptions, Request, RequestHttpFrontend,
+        ResponseStatus, ReturnListenSockets, SetMetricDetail, SocketAddress, SoftStop, Status, WorkerResponse,
+        request::RequestType, response_content::ContentType,
+    },
+    scm_socket::Listeners,
+    state::ConfigState,
+};
+
+use crate::{
+    engine::{self, Args, CaseReport, CheckResult, Evidence, Failure, Stats, pick_idx},
+    gens::{certs, cmd},
+    lab::{
+        self, LabConfig, LabError, LabWorker,
+        h1::{self, Acceptor, H1Conn, Kind, ReadOutcome},
+    },
+};
+
+use RequestType as T;
+
+// ------------------------------------------------------------------------------------------------
+// case
+
+#[derive(Clone, Debug, Serialize, Deserialize)]
+pub struct Case {
+    /// the command sequence; addresses are the placeholders of `gens::cmd` (mapped onto real
+    /// loopback ports at run time: listener address i -> reserved port i, backend address i -> mock i)
+    pub reqs: Vec<Request>,
+    /// burst sizes, used cyclically: that many commands are written back-to-back, then answers are read
+    pub bursts: Vec<u8>,
+    /// bit i set: listener address i is occupied by the harness, activating a listener there must fail
+    pub blocked: u8,
+    /// Some(k): HTTP/1.1 traffic between the write and the read of every k-th burst
+    pub traffic: Option<u8>,
+    pub traffic_host: u32,
+    /// final verb: SoftStop (true) or HardStop
+    pub soft: bool,
+    /// that many trailing commands of `reqs` are written in the same burst as the stop verb
+    pub tail: u8,
+    /// false: sequences are steered around the known deviations K1..K8 (counted as excluded_known)
+    #[serde(default)]
+    pub strict: bool,
+}
+
+const PROBE_HOSTS: &[&str] = &["a.x.com", "b.x.com", "x.com", "zz.x.com", "unknown.org"];
+
+fn rq(t: RequestType) -> Request {
+    t.into()
+}
+
+fn set_metric_detail() -> impl Strategy<Value = SetMetricDetail> {
+    (
+        prop_oneof![3 => Just("top:1".to_string()), 3 => Just("top:2".to_string()), 1 => Just("x".repeat(300)), 1 => Just(String::new())],
+        prop_oneof![1 => Just(None), 4 => (0i32..4).prop_map(Some), 1 => Just(Some(9i32))],
+        prop_oneof![2 => Just(None), 1 => Just(Some(0u32)), 2 => Just(Some(60u32)), 1 => Just(Some(300u32)), 1 => Just(Some(301u32))],
+        prop_oneof![3 => Just(None), 1 => Just(Some(false)), 2 => Just(Some(true))],
+        prop_oneof![2 => Just(None), 1 => Just(Some(1i32)), 1 => Just(Some(2i32))],
+        prop_oneof![2 => Just(None), 1 => Just(Some("01ARZ3NDEKTSV4RRFFQ69G5FAV".to_string())), 1 => Just(Some("0xff".to_string())), 1 => Just(Some("nonsense".to_string()))],
+    )
+        .prop_map(|(client_id, detail, ttl_seconds, clear, peer_pid, peer_session_ulid)| SetMetricDetail {
+            client_id,
+            detail,
+            ttl_seconds,
+            clear,
+            reason: None,
+            peer_pid,
+            peer_session_ulid,
+        })
+}
+
+/// the verbs a worker can be sent besides the configuration verbs of `gens::cmd`
+fn extra() -> impl Strategy<Value = Request> {
+    prop_oneof![
+        2 => prop_oneof![Just(0u64), Just(0u64), Just(1), Just(2), Just(1000), Just(u64::MAX)].prop_map(|n| rq(T::SetMaxConnectionsPerIp(n))),
+        2 => Just(rq(T::QueryMaxConnectionsPerIp(QueryMaxConnectionsPerIp {}))),
+        3 => set_metric_detail().prop_map(|s| rq(T::SetMetricDetail(s))),
+        2 => prop_oneof![Just(0i32), Just(1), Just(2), Just(7)].prop_map(|n| rq(T::ConfigureMetrics(n))),
+        2 => prop_oneof![Just("error"), Just("warn"), Just("off"), Just("sozu_lib=warn,error"), Just("sozu=verbose,,=x"), Just("")].prop_map(|s| rq(T::Logging(s.to_string()))),
+        2 => Just(rq(T::Status(Status {}))),
+        3 => any::<u32>().prop_map(|c| {
+            let pool = ["c0", "c1", "c2", "c3", "zz", ""];
+            rq(T::QueryClusterById(pool[pick_idx(c, pool.len())].to_string()))
+        }),
+        2 => (any::<u32>(), prop_oneof![Just(None), Just(Some("/api".to_string())), Just(Some("".to_string()))]).prop_map(|(h, path)| {
+            let pool = ["a.x.com", "b.x.com", "x.com", "*.x.com", "nowhere.org", ""];
+            rq(T::QueryClustersByDomain(QueryClusterByDomain { hostname: pool[pick_idx(h, pool.len())].to_string(), path }))
+        }),
+        2 => Just(rq(T::QueryClustersHashes(QueryClustersHashes {}))),
+        3 => (prop_oneof![2 => Just(None), 1 => Just(Some("a.x.com".to_string())), 1 => Just(Some("nowhere.org".to_string()))],
+              prop_oneof![2 => Just(None), 2 => (0usize..certs::BANK.len()).prop_map(|i| Some(certs::BANK[i].fingerprint.to_string())), 1 => Just(Some("zz".to_string())), 1 => Just(Some("00".repeat(32)))])
+            .prop_map(|(domain, fingerprint)| rq(T::QueryCertificatesFromWorkers(QueryCertificatesFilters { domain, fingerprint }))),
+        2 => (any::<bool>(), any::<bool>(), any::<bool>(), prop_oneof![Just(vec![]), Just(vec!["c0".to_string()]), Just(vec!["zz".to_string()])], prop_oneof![Just(vec![]), Just(vec!["b0".to_string()])], prop_oneof![Just(vec![]), Just(vec!["http.requests".to_string()])])
+            .prop_map(|(list, no_clusters, workers, cluster_ids, backend_ids, metric_names)| rq(T::QueryMetrics(QueryMetricsOptions { list, cluster_ids, backend_ids, metric_names, no_clusters, workers }))),
+        1 => Just(rq(T::ReturnListenSockets(ReturnListenSockets {}))),
+    ]
+}
+
+#[derive(Clone, Debug)]
+struct Scaffold {
+    listener: u32,
+    cluster: u32,
+    host: u32,
+    backend: bool,
+    at: [u32; 5],
+}
+
+fn listener_type_of(t: &RequestType) -> Option<(SocketAddress, ListenerType)> {
+    match t {
+        T::AddHttpListener(l) => Some((l.address, ListenerType::Http)),
+        T::AddHttpsListener(l) => Some((l.address, ListenerType::Https)),
+        T::AddTcpListener(l) => Some((l.address, ListenerType::Tcp)),
+        T::AddUdpListener(l) => Some((l.address, ListenerType::Udp)),
+        _ => None,
+    }
+}
+
+/// Point listener-directed commands at a listener some earlier command of the sequence added.
+fn retarget(reqs: &mut [Request], knobs: &[(u32, u8)]) {
+    for i in 0..reqs.len() {
+        let (x, coin) = knobs[i];
+        if coin >= 170 {
+            continue;
+        }
+        let earlier: Vec<(SocketAddress, ListenerType)> = reqs[..i].iter().filter_map(|r| r.request_type.as_ref().and_then(listener_type_of)).collect();
+        let of = |k: ListenerType| -> Option<SocketAddress> {
+            let c: Vec<_> = earlier.iter().filter(|(_, t)| *t == k).collect();
+            if c.is_empty() { None } else { Some(c[pick_idx(x, c.len())].0) }
+        };
+        let any = || -> Option<(SocketAddress, ListenerType)> { if earlier.is_empty() { None } else { Some(earlier[pick_idx(x, earlier.len())]) } };
+        let Some(t) = reqs[i].request_type.as_mut() else { continue };
+        match t {
+            T::ActivateListener(a) => {
+                if let Some((addr, k)) = any() {
+                    a.address = addr;
+                    a.proxy = k as i32;
+                }
+            }
+            T::DeactivateListener(a) => {
+                if let Some((addr, k)) = any() {
+                    a.address = addr;
+                    a.proxy = k as i32;
+                }
+            }
+            T::RemoveListener(a) => {
+                if let Some((addr, k)) = any() {
+                    a.address = addr;
+                    a.proxy = k as i32;
+                }
+            }
+            T::UpdateHttpListener(p) => {
+                if let Some(a) = of(ListenerType::Http) {
+                    p.address = a;
+                }
+            }
+            T::UpdateHttpsListener(p) => {
+                if let Some(a) = of(ListenerType::Https) {
+                    p.address = a;
+                }
+            }
+            T::UpdateTcpListener(p) => {
+                if let Some(a) = of(ListenerType::Tcp) {
+                    p.address = a;
+                }
+            }
+            T::UpdateUdpListener(p) => {
+                if let Some(a) = of(ListenerType::Udp) {
+                    p.address = a;
+                }
+            }
+            T::AddHttpFrontend(f) | T::RemoveHttpFrontend(f) => {
+                if let Some(a) = of(ListenerType::Http) {
+                    f.address = a;
+                }
+            }
+            T::AddHttpsFrontend(f) | T::RemoveHttpsFrontend(f) => {
+                if let Some(a) = of(ListenerType::Https) {
+                    f.address = a;
+                }
+            }
+            T::AddTcpFrontend(f) | T::RemoveTcpFrontend(f) => {
+                if let Some(a) = of(ListenerType::Tcp) {
+                    f.address = a;
+                }
+            }
+            T::AddUdpFrontend(f) | T::RemoveUdpFrontend(f) => {
+                if let Some(a) = of(ListenerType::Udp) {
+                    f.address = a;
+                }
+            }
+            T::AddCertificate(c) => {
+                if let Some(a) = of(ListenerType::Https) {
+                    c.address = a;
+                }
+            }
+            T::RemoveCertificate(c) => {
+                if let Some(a) = of(ListenerType::Https) {
+                    c.address = a;
+                }
+            }
+            T::ReplaceCertificate(c) => {
+                if let Some(a) = of(ListenerType::Https) {
+                    c.address = a;
+                }
+            }
+            _ => {}
+        }
+    }
+}
+
+fn scaffold_requests(s: &Scaffold) -> Vec<Request> {
+    let addr = cmd::sa(cmd::LISTENER_ADDRS[pick_idx(s.listener, cmd::LISTENER_ADDRS.len())]);
+    let cluster = cmd::CLUSTERS[pick_idx(s.cluster, cmd::CLUSTERS.len())].to_string();
+    let host = ["a.x.com", "b.x.com", "x.com"][pick_idx(s.host, 3)].to_string();
+    let listener = sozu_command_lib::config::ListenerBuilder::new_http(addr).to_http(None).expect("http listener");
+    vec![
+        rq(T::AddHttpListener(listener)),
+        rq(T::ActivateListener(ActivateListener { address: addr, proxy: ListenerType::Http as i32, from_scm: false })),
+        rq(T::AddCluster(Cluster { cluster_id: cluster.clone(), ..Default::default() })),
+        rq(T::AddBackend(AddBackend {
+            cluster_id: cluster.clone(),
+            backend_id: if s.backend { "b1".into() } else { "b0".into() },
+            address: cmd::sa(cmd::BACKEND_ADDRS[if s.backend { 1 } else { 0 }]),
+            sticky_id: None,
+            load_balancing_parameters: Some(LoadBalancingParams { weight: 100 }),
+            backup: None,
+        })),
+        rq(T::AddHttpFrontend(RequestHttpFrontend { cluster_id: Some(cluster), address: addr, hostname: host, path: PathRule::prefix("/".to_string()), position: 2, ..Default::default() })),
+    ]
+}
+
+pub fn strategy() -> impl Strategy<Value = Case> {
+    (
+        prop::collection::vec((prop_oneof![7 => cmd::request(), 2 => extra()], any::<u32>(), any::<u8>()), 5..=60),
+        prop_oneof![1 => Just(None::<Scaffold>), 1 => (any::<u32>(), any::<u32>(), any::<u32>(), any::<bool>(), any::<[u32; 5]>()).prop_map(|(listener, cluster, host, backend, at)| Some(Scaffold { listener, cluster, host, backend, at }))],
+        prop::collection::vec(prop_oneof![2 => Just(1u8), 3 => 2u8..6, 3 => 6u8..16, 1 => Just(60u8)], 1..5),
+        prop::collection::vec(prop::bool::weighted(0.22), 6),
+        prop_oneof![1 => Just(None::<u8>), 1 => (1u8..4).prop_map(Some)],
+        any::<u32>(),
+        any::<bool>(),
+        prop_oneof![3 => Just(0u8), 1 => 1u8..4],
+    )
+        .prop_map(|(raw, scaffold, bursts, blocked, traffic, traffic_host, soft, tail)| {
+            let mut reqs: Vec<Request> = vec![];
+            let mut knobs: Vec<(u32, u8)> = vec![];
+            for (r, x, c) in raw {
+                reqs.push(r);
+                knobs.push((x, c));
+            }
+            if let Some(s) = &scaffold {
+                // insert the five scaffold commands in order at generated positions
+                let mut pos: Vec<usize> = s.at.iter().map(|x| pick_idx(*x, reqs.len() + 1)).collect();
+                pos.sort();
+                for (k, r) in scaffold_requests(s).into_iter().enumerate() {
+                    let p = (pos[k] + k).min(reqs.len());
+                    reqs.insert(p, r);
+                    knobs.insert(p, (0, 255));
+                }
+                reqs.truncate(60);
+                knobs.truncate(60);
+            }
+            retarget(&mut reqs, &knobs);
+            let blocked = blocked.iter().enumerate().fold(0u8, |m, (i, b)| if *b { m | (1 << i) } else { m });
+            Case { reqs, bursts, blocked, traffic, traffic_host, soft, tail, strict: false }
+        })
+}
+
+pub fn verb(r: &Request) -> &'static str {
+    match cmd::verb(r) {
+        "other" => match &r.request_type {
+            Some(T::SetMaxConnectionsPerIp(_)) => "SetMaxConnectionsPerIp",
+            Some(T::QueryMaxConnectionsPerIp(_)) => "QueryMaxConnectionsPerIp",
+            Some(T::SetMetricDetail(_)) => "SetMetricDetail",
+            Some(T::ConfigureMetrics(_)) => "ConfigureMetrics",
+            Some(T::Logging(_)) => "Logging",
+            Some(T::Status(_)) => "Status",
+            Some(T::QueryClusterById(_)) => "QueryClusterById",
+            Some(T::QueryClustersByDomain(_)) => "QueryClustersByDomain",
+            Some(T::QueryClustersHashes(_)) => "QueryClustersHashes",
+            Some(T::QueryCertificatesFromWorkers(_)) => "QueryCertificatesFromWorkers",
+            Some(T::QueryMetrics(_)) => "QueryMetrics",
+            Some(T::ReturnListenSockets(_)) => "ReturnListenSockets",
+            Some(T::SoftStop(_)) => "SoftStop",
+            Some(T::HardStop(_)) => "HardStop",
+            _ => "other",
+        },
+        v => v,
+    }
+}
+
+// ------------------------------------------------------------------------------------------------
+// environment of one scenario: real ports behind the placeholder addresses, mock backends
+
+// Listener ports come from a range of this check's own (2000..10960, 560 per shard), disjoint from the
+// ranges of `lab::init_ports` that every other lab process draws from: this check probes ports it expects
+// to be CLOSED, and two sozu workers (both SO_REUSEPORT) could even share a port silently.
+static PORT_BASE: std::sync::atomic::AtomicU16 = std::sync::atomic::AtomicU16::new(2000);
+static PORT_CURSOR: std::sync::atomic::AtomicU16 = std::sync::atomic::AtomicU16::new(0);
+const PORTS_PER_SHARD: u16 = 560;
+
+fn init_own_ports(shard: usize) {
+    use std::sync::atomic::Ordering;
+    PORT_BASE.store(2000 + (shard as u16 % 16) * PORTS_PER_SHARD, Ordering::SeqCst);
+    PORT_CURSOR.store(((std::process::id() % 50) * 10) as u16, Ordering::SeqCst);
+}
+
+/// (address, listener holding it): drop the listener to free the port
+fn own_bound_listener() -> (SocketAddr, TcpListener) {
+    use std::sync::atomic::Ordering;
+    for _ in 0..PORTS_PER_SHARD as usize * 2 {
+        let off = PORT_CURSOR.fetch_add(1, Ordering::SeqCst) % PORTS_PER_SHARD;
+        let addr = SocketAddr::from(([127, 0, 0, 1], PORT_BASE.load(Ordering::SeqCst) + off));
+        if let Ok(l) = TcpListener::bind(addr) {
+            return (addr, l);
+        }
+    }
+    panic!("harness: no free port in this shard's own range");
+}
+
+/// Is there a LISTEN socket on `addr` that belongs to this process (the worker is a thread of it)?
+/// None: /proc could not be read.
+fn listens_in_this_process(addr: &SocketAddr) -> Option<bool> {
+    let SocketAddr::V4(v4) = addr else { return None };
+    let want = format!("{:08X}:{:04X}", u32::from_le_bytes(v4.ip().octets()), v4.port());
+    let table = std::fs::read_to_string("/proc/net/tcp").ok()?;
+    let inodes: Vec<String> = table
+        .lines()
+        .skip(1)
+        .filter_map(|l| {
+            let f: Vec<&str> = l.split_whitespace().collect();
+            if f.len() > 9 && f[1] == want && f[3] == "0A" { Some(format!("socket:[{}]", f[9])) } else { None }
+        })
+        .collect();
+    if inodes.is_empty() {
+        return Some(false);
+    }
+    let fds = std::fs::read_dir("/proc/self/fd").ok()?;
+    for fd in fds.flatten() {
+        if let Ok(t) = std::fs::read_link(fd.path()) {
+            if inodes.iter().any(|i| t.to_string_lossy() == *i) {
+                return Some(true);
+            }
+        }
+    }
+    Some(false)
+}
+
+struct Env {
+    listen: Vec<SocketAddr>,
+    blockers: Vec<(TcpListener, Option<UdpSocket>)>,
+    backends: Vec<SocketAddr>,
+    _mocks: Vec<Acceptor>,
+}
+
+fn serve_mock(idx: usize, stream: TcpStream) {
+    let mut w = match stream.try_clone() {
+        Ok(w) => w,
+        Err(_) => return,
+    };
+    let mut c = H1Conn::new(stream);
+    loop {
+        match c.next_message(Kind::Request, Instant::now() + Duration::from_secs(6)) {
+            ReadOutcome::Message(m) if m.end == h1::End::Clean => {
+                let head = h1::build_head("HTTP/1.1 200 OK", &[("Content-Length".into(), "2".into()), ("x-lab-backend".into(), idx.to_string())]);
+                if w.write_all(&head).and_then(|_| w.write_all(b"ok")).is_err() {
+                    return;
+                }
+            }
+            _ => return,
+        }
+    }
+}
+
+impl Env {
+    fn new(blocked: u8) -> Env {
+        let mut listen = vec![];
+        let mut blockers = vec![];
+        for i in 0..cmd::LISTENER_ADDRS.len() {
+            if blocked & (1 << i) != 0 {
+                let (addr, l) = own_bound_listener();
+                let u = UdpSocket::bind(addr).ok();
+                listen.push(addr);
+                blockers.push((l, u));
+            } else {
+                let (addr, l) = own_bound_listener();
+                drop(l);
+                listen.push(addr);
+            }
+        }
+        let mut backends = vec![];
+        let mut mocks = vec![];
+        for i in 0..cmd::BACKEND_ADDRS.len() {
+            if i < 2 {
+                let (addr, l) = lab::bound_listener();
+                mocks.push(Acceptor::spawn(l, move |_conn, stream| serve_mock(i, stream)));
+                backends.push(addr);
+            } else {
+                backends.push(lab::free_addr());
+            }
+        }
+        Env { listen, blockers, backends, _mocks: mocks }
+    }
+
+    fn is_blocked_idx(&self, i: usize, blocked: u8) -> bool {
+        blocked & (1 << i) != 0
+    }
+
+    fn listener(&self, a: &mut SocketAddress) {
+        if let Some(i) = cmd::LISTENER_ADDRS.iter().position(|s| cmd::sa(s) == *a) {
+            *a = self.listen[i].into();
+        }
+    }
+
+    fn backend(&self, a: &mut SocketAddress) {
+        if let Some(i) = cmd::BACKEND_ADDRS.iter().position(|s| cmd::sa(s) == *a) {
+            *a = self.backends[i].into();
+        }
+    }
+
+    /// the request as sent: placeholder addresses replaced, listeners created inactive (as every
+    /// real caller builds them: activation is the separate ActivateListener step)
+    ///
+    /// `clamp_knobs` (K8): zero H2 flood thresholds of an Add*Listener become 1; returns whether it did so.
+    fn remap(&self, r: &Request, clamp_knobs: bool) -> (Request, bool) {
+        let mut out = r.clone();
+        let mut clamped = false;
+        let mut clamp = |k: &mut Option<u32>| {
+            if clamp_knobs && *k == Some(0) {
+                *k = Some(1);
+                clamped = true;
+            }
+        };
+        match out.request_type.as_mut() {
+            Some(T::AddHttpListener(l)) => {
+                self.listener(&mut l.address);
+                l.active = false;
+                clamp(&mut l.h2_max_rst_stream_per_window);
+                clamp(&mut l.h2_max_ping_per_window);
+                clamp(&mut l.h2_max_settings_per_window);
+                clamp(&mut l.h2_max_continuation_frames);
+                clamp(&mut l.h2_max_glitch_count);
+            }
+            Some(T::AddHttpsListener(l)) => {
+                self.listener(&mut l.address);
+                l.active = false;
+                clamp(&mut l.h2_max_rst_stream_per_window);
+                clamp(&mut l.h2_max_ping_per_window);
+                clamp(&mut l.h2_max_settings_per_window);
+                clamp(&mut l.h2_max_continuation_frames);
+                clamp(&mut l.h2_max_glitch_count);
+            }
+            Some(T::AddTcpListener(l)) => {
+                self.listener(&mut l.address);
+                l.active = false;
+            }
+            Some(T::AddUdpListener(l)) => {
+                self.listener(&mut l.address);
+                l.active = false;
+            }
+            Some(T::RemoveListener(l)) => self.listener(&mut l.address),
+            Some(T::ActivateListener(l)) => self.listener(&mut l.address),
+            Some(T::DeactivateListener(l)) => self.listener(&mut l.address),
+            Some(T::AddHttpFrontend(f)) | Some(T::RemoveHttpFrontend(f)) | Some(T::AddHttpsFrontend(f)) | Some(T::RemoveHttpsFrontend(f)) => self.listener(&mut f.address),
+            Some(T::AddTcpFrontend(f)) | Some(T::RemoveTcpFrontend(f)) => self.listener(&mut f.address),
+            Some(T::AddUdpFrontend(f)) | Some(T::RemoveUdpFrontend(f)) => self.listener(&mut f.address),
+            Some(T::AddCertificate(c)) => self.listener(&mut c.address),
+            Some(T::RemoveCertificate(c)) => self.listener(&mut c.address),
+            Some(T::ReplaceCertificate(c)) => self.listener(&mut c.address),
+            Some(T::UpdateHttpListener(p)) => self.listener(&mut p.address),
+            Some(T::UpdateHttpsListener(p)) => self.listener(&mut p.address),
+            Some(T::UpdateTcpListener(p)) => self.listener(&mut p.address),
+            Some(T::UpdateUdpListener(p)) => self.listener(&mut p.address),
+            Some(T::AddBackend(b)) => self.backend(&mut b.address),
+            Some(T::RemoveBackend(b)) => self.backend(&mut b.address),
+            _ => {}
+        }
+        (out, clamped)
+    }
+}
+
+// ------------------------------------------------------------------------------------------------
+// worker panics: the location is recorded by a process-wide hook (the engine's record is thread-local
+// to the panicking thread, which is the worker's)
+
+static WORKER_PANIC: Mutex<Option<(String, String)>> = Mutex::new(None);
+
+fn install_worker_panic_hook() {
+    engine::install_panic_hook();
+    static ONCE: std::sync::Once = std::sync::Once::new();
+    ONCE.call_once(|| {
+        let prev = std::panic::take_hook();
+        std::panic::set_hook(Box::new(move |info| {
+            let on_worker = std::thread::current().name().map(|n| n.starts_with("sozu-")).unwrap_or(false);
+            if on_worker {
+                let loc = info.location().map(|l| format!("{}:{}", l.file(), l.line())).unwrap_or_else(|| "?".into());
+                let msg = if let Some(s) = info.payload().downcast_ref::<&str>() {
+                    s.to_string()
+                } else if let Some(s) = info.payload().downcast_ref::<String>() {
+                    s.clone()
+                } else {
+                    "<non-string panic>".into()
+                };
+                *WORKER_PANIC.lock().unwrap_or_else(|e| e.into_inner()) = Some((loc, msg));
+            }
+            prev(info);
+        }));
+    });
+}
+
+fn take_worker_panic() -> Option<(String, String)> {
+    WORKER_PANIC.lock().unwrap_or_else(|e| e.into_inner()).take()
+}
+
+fn short_loc(loc: &str) -> String {
+    loc.rsplit_once("/repo/").map(|(_, b)| b.to_string()).unwrap_or_else(|| loc.to_string())
+}
+
+// ------------------------------------------------------------------------------------------------
+// the run: what was sent, what came back
+
+struct Sent {
+    id: String,
+    verb: &'static str,
+    req: Request,
+    terminal: Vec<WorkerResponse>,
+    processing: u32,
+}
+
+impl Sent {
+    fn status(&self) -> Option<i32> {
+        self.terminal.first().map(|r| r.status)
+    }
+    fn ok(&self) -> bool {
+        self.status() == Some(ResponseStatus::Ok as i32)
+    }
+    fn failed(&self) -> bool {
+        self.status() == Some(ResponseStatus::Failure as i32)
+    }
+}
+
+enum Pump {
+    /// every awaited id has a final answer
+    Done,
+    /// nothing arrived for the idle limit
+    Idle,
+    /// the worker thread is gone
+    Died,
+}
+
+struct Run {
+    worker: LabWorker,
+    sent: Vec<Sent>,
+    index: BTreeMap<String, usize>,
+    foreign: Vec<WorkerResponse>,
+    events: u64,
+}
+
+const IDLE: Duration = Duration::from_secs(4);
+
+impl Run {
+    fn send(&mut self, req: &Request) -> Result<usize, Failure> {
+        self.send_opt(req, true)
+    }
+
+    /// `flush` false: the request only goes to the channel's write buffer; the next flushing send puts
+    /// the whole burst on the socket with one write, so that the worker reads it in one batch
+    fn send_opt(&mut self, req: &Request, flush: bool) -> Result<usize, Failure> {
+        let n = self.sent.len();
+        let id = format!("C08-{n}");
+        let res = if flush {
+            self.worker.send_with_id(&id, req.clone()).map_err(|e| format!("{e:?}"))
+        } else {
+            self.worker
+                .channel
+                .write_delimited_message(&sozu_command_lib::proto::command::WorkerRequest { id: id.clone(), content: req.clone() })
+                .map_err(|e| e.to_string())
+        };
+        res.map_err(|e| Failure::new("C08/harness-channel-write", format!("cannot write request {n} ({}): {e}", verb(req))))?;
+        self.index.insert(id.clone(), n);
+        self.sent.push(Sent { id, verb: verb(req), req: req.clone(), terminal: vec![], processing: 0 });
+        Ok(n)
+    }
+
+    fn absorb(&mut self, r: WorkerResponse) {
+        if matches!(r.content.as_ref().and_then(|c| c.content_type.as_ref()), Some(ContentType::Event(_))) {
+            self.events += 1;
+            return;
+        }
+        match self.index.get(&r.id) {
+            None => self.foreign.push(r),
+            Some(&i) => {
+                if r.status == ResponseStatus::Processing as i32 {
+                    self.sent[i].processing += 1;
+                } else {
+                    self.sent[i].terminal.push(r);
+                }
+            }
+        }
+    }
+
+    /// read answers until every id of `wanted` has a final answer, nothing came for IDLE, or the worker died
+    fn pump(&mut self, wanted: &[usize]) -> Pump {
+        let mut last = Instant::now();
+        loop {
+            if wanted.iter().all(|&i| !self.sent[i].terminal.is_empty()) {
+                return Pump::Done;
+            }
+            let t0 = Instant::now();
+            match self.worker.read_response(Duration::from_millis(200)) {
+                Ok(r) => {
+                    self.absorb(r);
+                    last = Instant::now();
+                }
+                Err(LabError::WorkerDied(_)) => return Pump::Died,
+                Err(_) => {
+                    if t0.elapsed() < Duration::from_millis(50) {
+                        std::thread::sleep(Duration::from_millis(20));
+                    }
+                    if !self.worker.alive() {
+                        return Pump::Died;
+                    }
+                    if last.elapsed() > IDLE {
+                        return Pump::Idle;
+                    }
+                }
+            }
+        }
+    }
+
+    /// read until nothing arrives for `window`
+    fn quiesce(&mut self, window: Duration) {
+        loop {
+            match self.worker.read_response(window) {
+                Ok(r) => self.absorb(r),
+                Err(_) => return,
+            }
+        }
+    }
+
+    fn died(&mut self, when: &str) -> Failure {
+        // give the thread a moment to finish unwinding
+        let end = Instant::now() + Duration::from_secs(2);
+        while self.worker.alive() && Instant::now() < end {
+            std::thread::sleep(Duration::from_millis(10));
+        }
+        match self.worker.join() {
+            Err(_) => {
+                let (loc, msg) = take_worker_panic().unwrap_or(("?".into(), "?".into()));
+                Failure::new(format!("C08/worker-panicked:{}", short_loc(&loc)), format!("the worker thread panicked {when} at {loc}: {msg}"))
+            }
+            Ok(true) => Failure::new("C08/worker-exited-early", format!("the worker thread returned {when} without a stop command")),
+            Ok(false) => Failure::new("C08/harness-worker-state", format!("the worker looked dead {when} but is running")),
+        }
+    }
+
+    /// oracle (1) over the ids `from..to`
+    fn judge(&self, from: usize, to: usize, context: &str) -> Result<(), Failure> {
+        if let Some(f) = self.foreign.first() {
+            fail!("C08/answer-with-unknown-id", "{context}: a response carries id {:?} (status {}, message {:?}) which was never sent", f.id, f.status, engine::truncate(&f.message, 200));
+        }
+        for s in &self.sent[from..to] {
+            if s.terminal.is_empty() {
+                fail!(format!("C08/unanswered:{}", s.verb), "{context}: request {} ({}) got no final answer ({} processing notices): {}", s.id, s.verb, s.processing, engine::truncate(&format!("{:?}", s.req), 500));
+            }
+            if s.terminal.len() > 1 {
+                fail!(
+                    format!("C08/answered-twice:{}", s.verb),
+                    "{context}: request {} ({}) got {} final answers: {:?}; request {}",
+                    s.id,
+                    s.verb,
+                    s.terminal.len(),
+                    s.terminal.iter().map(|r| (r.status, engine::truncate(&r.message, 120))).collect::<Vec<_>>(),
+                    engine::truncate(&format!("{:?}", s.req), 500)
+                );
+            }
+        }
+        Ok(())
+    }
+}
+
+// ------------------------------------------------------------------------------------------------
+// models
+
+#[derive(Default)]
+struct Books {
+    /// Failure answers whose dispatch changed what the worker's ConfigState shows (K4): (index, verb)
+    failed_but_applied: Vec<(usize, &'static str)>,
+    /// Ok answers the ConfigState rejects (the main process would never have sent them)
+    ok_but_rejected: Vec<(usize, &'static str)>,
+    /// listener addresses touched by such a command: the proxies' state there is not what the model says
+    polluted: BTreeSet<SocketAddr>,
+    /// listener slab bookkeeping of the worker (K1, K2)
+    adds_ok: i64,
+    removes_seen: i64,
+    slab_removed: i64,
+    in_slab: BTreeMap<(i32, SocketAddr), bool>,
+    /// (proxy, address) -> index of the command that created the listener now in the model
+    created_at: BTreeMap<(i32, SocketAddr), usize>,
+    /// http frontend key -> index of the AddHttpFrontend that was answered Ok
+    front_added_at: BTreeMap<String, usize>,
+    /// listeners activated again after a DeactivateListener took their entry out of the slab (K7)
+    reactivated: BTreeSet<(i32, SocketAddr)>,
+    /// addresses handed back with ReturnListenSockets
+    returned: BTreeSet<SocketAddr>,
+    /// clusters that ever saw a RemoveBackend, or an AddBackend to an address nobody serves
+    unserved: BTreeSet<String>,
+    max_conn_per_ip: u64,
+}
+
+fn request_cluster(r: &Request) -> Option<String> {
+    match r.request_type.as_ref()? {
+        T::AddCluster(c) => Some(c.cluster_id.clone()),
+        T::RemoveCluster(c) | T::RemoveHealthCheck(c) => Some(c.clone()),
+        T::AddHttpFrontend(f) | T::RemoveHttpFrontend(f) | T::AddHttpsFrontend(f) | T::RemoveHttpsFrontend(f) => f.cluster_id.clone(),
+        T::AddTcpFrontend(f) | T::RemoveTcpFrontend(f) => Some(f.cluster_id.clone()),
+        T::AddUdpFrontend(f) | T::RemoveUdpFrontend(f) => Some(f.cluster_id.clone()),
+        T::AddBackend(b) => Some(b.cluster_id.clone()),
+        T::RemoveBackend(b) => Some(b.cluster_id.clone()),
+        T::SetHealthCheck(h) => Some(h.cluster_id.clone()),
+        _ => None,
+    }
+}
+
+fn request_listener_address(r: &Request) -> Option<SocketAddr> {
+    match r.request_type.as_ref()? {
+        T::AddHttpListener(l) => Some(l.address.into()),
+        T::AddHttpsListener(l) => Some(l.address.into()),
+        T::AddTcpListener(l) => Some(l.address.into()),
+        T::AddUdpListener(l) => Some(l.address.into()),
+        T::RemoveListener(l) => Some(l.address.into()),
+        T::ActivateListener(l) => Some(l.address.into()),
+        T::DeactivateListener(l) => Some(l.address.into()),
+        T::AddHttpFrontend(f) | T::RemoveHttpFrontend(f) | T::AddHttpsFrontend(f) | T::RemoveHttpsFrontend(f) => Some(f.address.into()),
+        T::AddTcpFrontend(f) | T::RemoveTcpFrontend(f) => Some(f.address.into()),
+        T::AddUdpFrontend(f) | T::RemoveUdpFrontend(f) => Some(f.address.into()),
+        T::AddCertificate(c) => Some(c.address.into()),
+        T::RemoveCertificate(c) => Some(c.address.into()),
+        T::ReplaceCertificate(c) => Some(c.address.into()),
+        T::UpdateHttpListener(p) => Some(p.address.into()),
+        T::UpdateHttpsListener(p) => Some(p.address.into()),
+        T::UpdateTcpListener(p) => Some(p.address.into()),
+        T::UpdateUdpListener(p) => Some(p.address.into()),
+        _ => None,
+    }
+}
+
+struct Models {
+    /// applied iff the worker answered Ok: the main process's configuration under the rule of this property
+    ok: ConfigState,
+    /// every command dispatched, errors ignored: what the worker's own ConfigState does (server.rs notify_proxys)
+    mirror: ConfigState,
+    books: Books,
+}
+
+impl Models {
+    fn apply(&mut self, idx: usize, s: &Sent, served: &[SocketAddr]) {
+        // what the worker's own ConfigState does with the command (request_counts always move)
+        let mut before = self.mirror.clone();
+        let accepted = self.mirror.dispatch(&s.req).is_ok();
+        before.request_counts = self.mirror.request_counts.clone();
+        let mirror_changed = accepted && before != self.mirror;
+        let addr = request_listener_address(&s.req);
+        if s.ok() {
+            if self.ok.dispatch(&s.req).is_err() {
+                self.books.ok_but_rejected.push((idx, s.verb));
+                // an accepted Add the model lacks: the proxies hold more there than the model says
+                if let (Some(a), true) = (addr, s.verb.starts_with("Add")) {
+                    self.books.polluted.insert(a);
+                }
+            }
+        } else if s.failed() && mirror_changed {
+            self.books.failed_but_applied.push((idx, s.verb));
+        }
+        let b = &mut self.books;
+        match s.req.request_type.as_ref() {
+            Some(t @ (T::AddHttpListener(_) | T::AddHttpsListener(_) | T::AddTcpListener(_) | T::AddUdpListener(_))) => {
+                if s.ok() {
+                    let (a, k) = listener_type_of(t).expect("listener");
+                    b.adds_ok += 1;
+                    b.reactivated.remove(&(k as i32, SocketAddr::from(a)));
+                    b.in_slab.insert((k as i32, SocketAddr::from(a)), true);
+                    b.created_at.insert((k as i32, SocketAddr::from(a)), idx);
+                }
+            }
+            Some(T::RemoveListener(r)) => {
+                b.removes_seen += 1;
+                if s.ok() {
+                    b.in_slab.remove(&(r.proxy, SocketAddr::from(r.address)));
+                    b.reactivated.remove(&(r.proxy, SocketAddr::from(r.address)));
+                }
+            }
+            Some(T::ActivateListener(a)) => {
+                if s.ok() && b.in_slab.get(&(a.proxy, SocketAddr::from(a.address))) == Some(&false) {
+                    b.reactivated.insert((a.proxy, SocketAddr::from(a.address)));
+                }
+            }
+            Some(T::DeactivateListener(d)) => {
+                if s.ok() {
+                    if let Some(present) = b.in_slab.get_mut(&(d.proxy, SocketAddr::from(d.address))) {
+                        if *present {
+                            *present = false;
+                            b.slab_removed += 1;
+                        }
+                    }
+                }
+            }
+            Some(T::AddHttpFrontend(f)) => {
+                if s.ok() {
+                    b.front_added_at.insert(f.to_string(), idx);
+                }
+            }
+            Some(T::RemoveHttpFrontend(f)) => {
+                b.front_added_at.remove(&f.to_string());
+            }
+            Some(T::AddBackend(a)) => {
+                if !served.contains(&a.address.into()) {
+                    b.unserved.insert(a.cluster_id.clone());
+                }
+            }
+            Some(T::RemoveBackend(r)) => {
+                b.unserved.insert(r.cluster_id.clone());
+            }
+            Some(T::SetMaxConnectionsPerIp(n)) => {
+                if s.ok() {
+                    b.max_conn_per_ip = *n;
+                }
+            }
+            _ => {}
+        }
+    }
+
+    /// base_sessions_count - 3 and the number of listener entries in the slab, as server.rs keeps them
+    fn softstop_would_hang(&self) -> bool {
+        self.books.removes_seen > self.books.slab_removed
+    }
+}
+
+fn tcp_listeners_at(m: &ConfigState, a: &SocketAddr) -> Vec<(&'static str, bool)> {
+    let mut v = vec![];
+    if let Some(l) = m.http_listeners.get(a) {
+        v.push(("http", l.active));
+    }
+    if let Some(l) = m.https_listeners.get(a) {
+        v.push(("https", l.active));
+    }
+    if let Some(l) = m.tcp_listeners.get(a) {
+        v.push(("tcp", l.active));
+    }
+    v
+}
+
+// ------------------------------------------------------------------------------------------------
+// traffic
+
+enum Got {
+    Status(u16, Option<String>),
+    Other(String),
+}
+
+fn http_get(addr: SocketAddr, host: &str, path: &str, budget: Duration) -> (Option<TcpStream>, Got) {
+    let stream = match h1::connect(addr, Duration::from_millis(500)) {
+        Ok(s) => s,
+        Err(e) => return (None, Got::Other(format!("connect failed: {e}"))),
+    };
+    let mut w = match stream.try_clone() {
+        Ok(w) => w,
+        Err(e) => return (None, Got::Other(format!("clone failed: {e}"))),
+    };
+    let req = h1::build_head(&format!("GET {path} HTTP/1.1"), &[("Host".into(), host.into()), ("x-lab-req".into(), "0".into())]);
+    if let Err(e) = w.write_all(&req) {
+        return (None, Got::Other(format!("write failed: {e}")));
+    }
+    let mut c = H1Conn::new(stream);
+    match c.next_message(Kind::Response { head_request: false }, Instant::now() + budget) {
+        ReadOutcome::Message(m) => {
+            let st = m.status().unwrap_or(0);
+            (Some(w), Got::Status(st, m.header("x-lab-backend").map(|s| s.to_string())))
+        }
+        other => (None, Got::Other(h1::describe(&other))),
+    }
+}
+
+fn could_match(front_host: &str, probe_host: &str) -> bool {
+    if front_host.contains('/') {
+        return true;
+    }
+    if let Some(suffix) = front_host.strip_prefix('*') {
+        return probe_host.to_ascii_lowercase().ends_with(&suffix.to_ascii_lowercase());
+    }
+    front_host.eq_ignore_ascii_case(probe_host)
+}
+
+fn simple_front(f: &sozu_command_lib::response::HttpFrontend) -> bool {
+    f.method.is_none()
+        && f.redirect.is_none()
+        && f.redirect_scheme.is_none()
+        && f.redirect_template.is_none()
+        && f.rewrite_host.is_none()
+        && f.rewrite_path.is_none()
+        && f.rewrite_port.is_none()
+        && f.required_auth != Some(true)
+        && f.headers.is_empty()
+        && f.hsts.is_none()
+        && !f.hostname.contains('/')
+        && !f.hostname.contains('*')
+        && f.hostname.bytes().all(|b| b.is_ascii_lowercase() || b.is_ascii_digit() || b == b'.' || b == b'-')
+}
+
+fn simple_cluster(c: &Cluster) -> bool {
+    !c.https_redirect && c.proxy_protocol.is_none() && c.http2 != Some(true) && c.health_check.is_none() && c.max_connections_per_ip.is_none() && c.www_authenticate.is_none() && c.authorized_hashes.is_empty()
+}
+
+/// K6 bookkeeping: the highest lease level ever requested per client id
+#[derive(Default)]
+struct Leases {
+    highest: BTreeMap<String, i32>,
+}
+
+impl Leases {
+    /// would this apply renew a lease of the same client at a lower level (metrics/mod.rs:638 asserts it cannot)?
+    fn lowers(&mut self, r: &Request) -> bool {
+        let Some(T::SetMetricDetail(m)) = r.request_type.as_ref() else { return false };
+        if m.clear.unwrap_or(false) {
+            return false;
+        }
+        let Some(level) = m.detail.filter(|d| (0..4).contains(d)) else { return false };
+        let top = self.highest.get(&m.client_id).copied();
+        if top.map(|t| level < t).unwrap_or(false) {
+            return true;
+        }
+        self.highest.insert(m.client_id.clone(), level);
+        false
+    }
+}
+
+// ------------------------------------------------------------------------------------------------
+// scenario
+
+const STOP_DEADLINE: Duration = Duration::from_secs(4);
+
+pub fn scenario(case: &Case) -> CheckResult {
+    let mut rep = CaseReport::default();
+    let _ = take_worker_panic();
+    let mut env = Env::new(case.blocked);
+    let served: Vec<SocketAddr> = env.backends[..2].to_vec();
+    let worker = LabWorker::start("c08", LabConfig::default(), Listeners::default(), &ConfigState::new());
+    let mut run = Run { worker, sent: vec![], index: BTreeMap::new(), foreign: vec![], events: 0 };
+    let mut models = Models { ok: ConfigState::new(), mirror: ConfigState::new(), books: Books::default() };
+    let mut excluded = 0u64;
+
+    let mut k8_clamped = 0u64;
+    let all: Vec<Request> = case
+        .reqs
+        .iter()
+        .map(|r| {
+            let (out, clamped) = env.remap(r, !case.strict);
+            k8_clamped += clamped as u64;
+            out
+        })
+        .collect();
+    excluded += k8_clamped;
+    let is_rls = |r: &Request| matches!(r.request_type, Some(T::ReturnListenSockets(_)));
+    // ReturnListenSockets hands sockets over on the SCM stream socket, which has no message framing of
+    // its own: like a main process, the harness takes the sockets before it writes anything else
+    let mut tail_n = (case.tail as usize).min(all.len().saturating_sub(1));
+    while tail_n > 0 && all[all.len() - tail_n..].iter().any(is_rls) {
+        tail_n -= 1;
+    }
+    let _ = run.worker.scm_main.set_blocking(false);
+    let (body, tail) = all.split_at(all.len() - tail_n);
+
+    // ---------------------------------------------------------------- body, in bursts
+    let mut clients: Vec<TcpStream> = vec![];
+    let mut traffic_rounds = 0u64;
+    let mut traffic_200 = 0u64;
+    let mut traffic_other = 0u64;
+    let mut max_burst = 0usize;
+    let mut i = 0usize;
+    let mut burst_no = 0usize;
+    let mut k1_skipped = 0u64;
+    let mut k6_skipped = 0u64;
+    let mut leases = Leases::default();
+    while i < body.len() {
+        let size = (*case.bursts.get(burst_no % case.bursts.len().max(1)).unwrap_or(&1) as usize).max(1);
+        let mut end = (i + size).min(body.len());
+        if let Some(p) = body[i..end].iter().position(is_rls) {
+            end = i + p + 1;
+        }
+        let mut wanted = vec![];
+        let mut admitted: Vec<&Request> = vec![];
+        let mut removes_in_burst = 0i64;
+        for r in &body[i..end] {
+            if matches!(r.request_type, Some(T::RemoveListener(_))) {
+                // K1: base_sessions_count (3 + listeners added) is decremented by every RemoveListener
+                let base = 3 + models.books.adds_ok - models.books.removes_seen - removes_in_burst;
+                if base <= 0 && !case.strict {
+                    k1_skipped += 1;
+                    continue;
+                }
+                removes_in_burst += 1;
+            }
+            // K6: renewing a metric-detail lease at a lower level trips a debug assertion
+            if !case.strict && leases.lowers(r) {
+                k6_skipped += 1;
+                continue;
+            }
+            admitted.push(r);
+        }
+        for (k, r) in admitted.iter().enumerate() {
+            wanted.push(run.send_opt(r, k + 1 == admitted.len())?);
+        }
+        max_burst = max_burst.max(wanted.len());
+        // traffic between the write and the read of this burst
+        if let Some(k) = case.traffic {
+            if burst_no % (k.max(1) as usize) == 0 {
+                let host = PROBE_HOSTS[pick_idx(case.traffic_host.wrapping_add((burst_no as u32).wrapping_mul(0x2545_F491)), PROBE_HOSTS.len())];
+                for a in env.listen.clone() {
+                    let open = models.ok.http_listeners.get(&a).map(|l| l.active).unwrap_or(false);
+                    if !open || models.books.returned.contains(&a) || (!case.strict && models.books.reactivated.contains(&(ListenerType::Http as i32, a))) {
+                        continue;
+                    }
+                    traffic_rounds += 1;
+                    let (keep, got) = http_get(a, host, "/api", Duration::from_millis(1500));
+                    match got {
+                        Got::Status(200, _) => traffic_200 += 1,
+                        _ => traffic_other += 1,
+                    }
+                    if let Some(s) = keep {
+                        if clients.len() < 4 {
+                            clients.push(s);
+                        }
+                    }
+                }
+            }
+        }
+        match run.pump(&wanted) {
+            Pump::Done => {}
+            Pump::Died => return Err(run.died(&format!("while commands {:?} were in flight", wanted.iter().map(|&w| run.sent[w].verb).collect::<Vec<_>>()))),
+            Pump::Idle => {
+                // no progress: settle with a sentinel, then judge
+                let s = run.send(&rq(T::Status(Status {})))?;
+                if let Pump::Died = run.pump(&[s]) {
+                    return Err(run.died("after a burst went unanswered"));
+                }
+                run.quiesce(Duration::from_millis(150));
+                run.judge(0, run.sent.len(), "a burst made no progress for 4 s")?;
+                fail!("C08/harness-idle", "burst made no progress but every id is answered");
+            }
+        }
+        for &w in &wanted {
+            models.apply(w, &run.sent[w], &served);
+            // ReturnListenSockets: take the sockets as the main process would, and close them
+            if matches!(run.sent[w].req.request_type, Some(T::ReturnListenSockets(_))) && run.sent[w].ok() {
+                let t0 = Instant::now();
+                loop {
+                    match run.worker.scm_main.receive_listeners() {
+                        Ok(l) => {
+                            for (a, _) in l.http.iter().chain(l.tls.iter()).chain(l.tcp.iter()).chain(l.udp.iter()) {
+                                models.books.returned.insert(*a);
+                            }
+                            l.close();
+                            break;
+                        }
+                        Err(e) if t0.elapsed() > Duration::from_secs(2) => {
+                            fail!("C08/returned-sockets-not-received", "ReturnListenSockets was answered Ok but nothing readable arrived on the SCM socket within 2 s: {e:?}")
+                        }
+                        Err(_) => std::thread::sleep(Duration::from_millis(10)),
+                    }
+                }
+            }
+        }
+        i = end;
+        burst_no += 1;
+    }
+    excluded += k1_skipped + k6_skipped;
+    drop(clients);
+    if traffic_rounds > 0 {
+        std::thread::sleep(Duration::from_millis(120));
+    }
+
+    // ---------------------------------------------------------------- (2) the worker's view
+    let mut q = vec![];
+    let pool: Vec<&str> = cmd::CLUSTERS.iter().copied().chain(["zz"]).collect();
+    for c in &pool {
+        q.push(run.send(&rq(T::QueryClusterById(c.to_string())))?);
+    }
+    let qh = run.send(&rq(T::QueryClustersHashes(QueryClustersHashes {})))?;
+    q.push(qh);
+    let sentinel = run.send(&rq(T::Status(Status {})))?;
+    q.push(sentinel);
+    match run.pump(&q) {
+        Pump::Died => return Err(run.died("while answering the closing queries")),
+        Pump::Idle | Pump::Done => {}
+    }
+    run.quiesce(Duration::from_millis(150));
+    // ---------------------------------------------------------------- (1) exactly one final answer each
+    run.judge(0, run.sent.len(), "after the closing Status and 150 ms of silence")?;
+
+    let content = |s: &Sent| -> Option<ContentType> { s.terminal.first().and_then(|r| r.content.clone()).and_then(|c| c.content_type) };
+    let mut differing: Vec<String> = vec![];
+    let mut mirror_differs: Option<String> = None;
+    for (n, c) in pool.iter().enumerate() {
+        let s = &run.sent[q[n]];
+        let Some(ContentType::Clusters(got)) = content(s) else {
+            fail!("C08/query-answer-shape:QueryClusterById", "QueryClusterById({c}) answered status {:?} with content {:?}", s.status(), engine::truncate(&format!("{:?}", content(s)), 300));
+        };
+        let want: Vec<_> = models.ok.cluster_state(c).into_iter().collect();
+        if got.vec != want {
+            differing.push(c.to_string());
+        }
+        let want_m: Vec<_> = models.mirror.cluster_state(c).into_iter().collect();
+        if got.vec != want_m && mirror_differs.is_none() {
+            mirror_differs = Some(format!("QueryClusterById({c}): worker {:?}, every-command model {:?}", engine::truncate(&format!("{:?}", got.vec), 600), engine::truncate(&format!("{want_m:?}"), 600)));
+        }
+    }
+    {
+        let s = &run.sent[qh];
+        let Some(ContentType::ClusterHashes(got)) = content(s) else {
+            fail!("C08/query-answer-shape:QueryClustersHashes", "QueryClustersHashes answered status {:?} with content {:?}", s.status(), engine::truncate(&format!("{:?}", content(s)), 300));
+        };
+        if got.map != models.ok.hash_state() {
+            differing.push("<hashes>".into());
+        }
+        if got.map != models.mirror.hash_state() && mirror_differs.is_none() {
+            mirror_differs = Some(format!("QueryClustersHashes: worker {:?}, every-command model {:?}", got.map, models.mirror.hash_state()));
+        }
+    }
+    if !differing.is_empty() {
+        let detail = {
+            let c = differing[0].clone();
+            let s = pool.iter().position(|p| *p == c).map(|n| &run.sent[q[n]]);
+            format!(
+                "differs for {differing:?}; e.g. {c}: worker says {:?}, model (applied iff Ok) says {:?}",
+                engine::truncate(&format!("{:?}", s.and_then(|s| content(s))), 700),
+                engine::truncate(&format!("{:?}", models.ok.cluster_state(&c)), 700)
+            )
+        };
+        let culprit = models
+            .books
+            .failed_but_applied
+            .iter()
+            .find(|(i, _)| request_cluster(&run.sent[*i].req).map(|c| differing.contains(&c)).unwrap_or(false))
+            .or(models.books.failed_but_applied.first())
+            .copied();
+        if let Some((idx, v)) = culprit {
+            if mirror_differs.is_none() {
+                // K4
+                if case.strict {
+                    let s = &run.sent[idx];
+                    fail!(
+                        format!("C08/view-differs-after-failure:{v}"),
+                        "request {} ({v}) was answered Failure ({:?}) yet the worker's view shows it applied; {detail}; {} such commands in this sequence: {:?}",
+                        s.id,
+                        engine::truncate(&s.terminal[0].message, 200),
+                        models.books.failed_but_applied.len(),
+                        models.books.failed_but_applied.iter().map(|x| x.1).collect::<Vec<_>>()
+                    );
+                }
+                excluded += models.books.failed_but_applied.len() as u64;
+                rep.class("k4_failure_left_view_changed");
+            } else {
+                fail!("C08/view-differs:unexplained", "{detail}; and the worker's view is not the every-command model either: {}", mirror_differs.unwrap_or_default());
+            }
+        } else {
+            fail!("C08/view-differs:unexplained", "{detail}; no command of the sequence was answered Failure and accepted by ConfigState; mirror: {mirror_differs:?}");
+        }
+    }
+
+    // ---------------------------------------------------------------- (3) behaviour matches the model
+    env.blockers.clear();
+    let mut open_listeners = 0u64;
+    let mut probed = 0u64;
+    for (n, a) in env.listen.iter().enumerate() {
+        if models.books.returned.contains(a) {
+            rep.class("address_skipped_returned_sockets");
+            continue;
+        }
+        let at = tcp_listeners_at(&models.ok, a);
+        let expected = at.iter().any(|(_, active)| *active);
+        let got = match TcpStream::connect_timeout(a, Duration::from_millis(400)) {
+            Ok(s) => {
+                drop(s);
+                true
+            }
+            Err(e) if e.kind() == std::io::ErrorKind::ConnectionRefused => false,
+            Err(_) => {
+                rep.class("connect_probe_inconclusive");
+                continue;
+            }
+        };
+        probed += 1;
+        if models.books.polluted.contains(a) {
+            // the worker accepted a command there that ConfigState rejects: the proxies hold more than the model
+            rep.class("address_skipped_ok_but_state_rejected");
+            continue;
+        }
+        if got && !expected && listens_in_this_process(a) != Some(true) {
+            // somebody else's socket (another lab process on this machine): says nothing about this worker
+            rep.class("foreign_listener_on_port");
+            continue;
+        }
+        if got && !expected {
+            fail!(
+                format!("C08/listening-but-model-inactive:{}", at.first().map(|x| x.0).unwrap_or("none")),
+                "connect to listener address #{n} ({a}) succeeded, the model (commands answered Ok) has there: {at:?} (blocked by the harness during the run: {})",
+                env.is_blocked_idx(n, case.blocked)
+            );
+        }
+        if !got && expected {
+            fail!(
+                format!("C08/refused-but-model-active:{}", at.iter().find(|x| x.1).map(|x| x.0).unwrap_or("none")),
+                "connect to listener address #{n} ({a}) was refused, the model (commands answered Ok) has there: {at:?}"
+            );
+        }
+        if got {
+            open_listeners += 1;
+        }
+    }
+
+    // one routed probe: a plain frontend of the model whose cluster has only backends the harness serves
+    let mut routed = 0u64;
+    let mut probe_excluded = 0u64;
+    'probe: for (key, f) in models.ok.http_fronts.iter() {
+        let a = f.address;
+        let Some(l) = models.ok.http_listeners.get(&a) else { continue };
+        if !l.active || l.expect_proxy || models.books.returned.contains(&a) || models.books.polluted.contains(&a) || models.books.max_conn_per_ip != 0 {
+            continue;
+        }
+        // another listener type on the same port would share the accept queue (SO_REUSEPORT)
+        if tcp_listeners_at(&models.ok, &a).len() != 1 {
+            continue;
+        }
+        let Some(cid) = f.cluster_id.clone() else { continue };
+        if !simple_front(f) {
+            continue;
+        }
+        let rivals: Vec<_> = models.ok.http_fronts.values().filter(|g| g.address == a && could_match(&g.hostname, &f.hostname)).collect();
+        if rivals.iter().any(|g| g.cluster_id.as_deref() != Some(cid.as_str()) || !simple_front(g)) {
+            continue;
+        }
+        // the mirror (the worker's own ConfigState) must not know rival fronts the model lacks
+        if models.mirror.http_fronts.values().any(|g| g.address == a && could_match(&g.hostname, &f.hostname) && !models.ok.http_fronts.values().any(|h| h == g)) {
+            continue;
+        }
+        let Some(c) = models.ok.clusters.get(&cid) else { continue };
+        if !simple_cluster(c) || models.books.unserved.contains(&cid) {
+            continue;
+        }
+        let backends = models.ok.backends.get(&cid).cloned().unwrap_or_default();
+        if backends.is_empty() || backends.iter().any(|b| !served.contains(&b.address) || b.load_balancing_parameters.as_ref().map(|p| p.weight == 0).unwrap_or(false)) {
+            continue;
+        }
+        let want: BTreeSet<String> = backends.iter().filter_map(|b| served.iter().position(|s| *s == b.address)).map(|i| i.to_string()).collect();
+        // K5: was the listener re-created after this frontend was added?
+        let created = models.books.created_at.get(&(ListenerType::Http as i32, a)).copied().unwrap_or(0);
+        let added = models.books.front_added_at.get(key).copied();
+        let readded = match added {
+            Some(x) => created > x,
+            None => true,
+        };
+        // K7: was the listener deactivated and activated again?
+        let reactivated = models.books.reactivated.contains(&(ListenerType::Http as i32, a));
+        if (readded || reactivated) && !case.strict {
+            probe_excluded += 1;
+            continue;
+        }
+        let known = if reactivated { Some("listener-reactivated") } else if readded { Some("listener-readded") } else { None };
+        let path = match f.path.value.as_str() {
+            "" => "/".to_string(),
+            "/a.*" => "/a".to_string(),
+            v => v.to_string(),
+        };
+        let (_, got) = http_get(a, &f.hostname, &path, Duration::from_millis(2500));
+        if !matches!(got, Got::Status(200, _)) {
+            std::thread::sleep(Duration::from_millis(60));
+            if !run.worker.alive() {
+                return Err(run.died(&format!("while serving GET {path} for Host {} on its HTTP listener {a}", f.hostname)));
+            }
+        }
+        match got {
+            Got::Status(200, Some(b)) if want.contains(&b) => {
+                routed += 1;
+                break 'probe;
+            }
+            Got::Status(st, b) => {
+                fail!(
+                    format!("C08/route-differs-from-view:{}", known.unwrap_or("unexplained")),
+                    "GET {path} with Host {} on {a}: status {st}, backend {b:?}; the model routes frontend {key} to cluster {cid} whose backends are the mock(s) {want:?}; listener created by command #{created}, frontend added by command {added:?}",
+                    f.hostname
+                );
+            }
+            Got::Other(o) => {
+                fail!(
+                    format!("C08/route-differs-from-view:{}", known.unwrap_or("no-response")),
+                    "GET {path} with Host {} on {a}: {o}; the model routes frontend {key} to cluster {cid} whose backends are the mock(s) {want:?}",
+                    f.hostname
+                );
+            }
+        }
+    }
+    excluded += probe_excluded;
+
+    // ---------------------------------------------------------------- (4) stop
+    let body_end = run.sent.len();
+    let would_hang = models.softstop_would_hang();
+    let mut soft = case.soft;
+    if soft && would_hang && !case.strict {
+        // K2
+        soft = false;
+        excluded += 1;
+        rep.class("k2_softstop_replaced");
+    }
+    // K1 also applies to the tail; K2: a RemoveListener in the tail makes a SoftStop hang as well
+    let mut tail_reqs: Vec<&Request> = vec![];
+    let mut tail_removes = 0i64;
+    for r in tail {
+        if matches!(r.request_type, Some(T::RemoveListener(_))) {
+            if !case.strict && 3 + models.books.adds_ok - models.books.removes_seen - tail_removes <= 0 {
+                excluded += 1;
+                rep.class("k1_remove_listener_dropped");
+                continue;
+            }
+            tail_removes += 1;
+        }
+        if !case.strict && leases.lowers(r) {
+            excluded += 1;
+            k6_skipped += 1;
+            continue;
+        }
+        tail_reqs.push(r);
+    }
+    if soft && tail_removes > 0 && !case.strict {
+        soft = false;
+        excluded += 1;
+        rep.class("k2_softstop_replaced");
+    }
+    let apart = !tail_reqs.is_empty() && !soft && !case.strict;
+    let mut tail_ids = vec![];
+    for (k, r) in tail_reqs.iter().enumerate() {
+        // written together with the stop verb, unless K3 is being steered around
+        tail_ids.push(run.send_opt(r, apart && k + 1 == tail_reqs.len())?);
+    }
+    if apart {
+        // K3: answers still queued when a HardStop is read in the same batch are lost; let the tail finish first
+        if let Pump::Died = run.pump(&tail_ids) {
+            return Err(run.died("while the tail commands were in flight"));
+        }
+        excluded += 1;
+        rep.class("k3_tail_sent_apart");
+    }
+    let stop = run.send(&if soft { rq(T::SoftStop(SoftStop {})) } else { rq(T::HardStop(HardStop {})) })?;
+    let t0 = Instant::now();
+    let mut exited = false;
+    while t0.elapsed() < STOP_DEADLINE {
+        match run.worker.read_response(Duration::from_millis(100)) {
+            Ok(r) => run.absorb(r),
+            Err(_) => {
+                if !run.worker.alive() {
+                    exited = true;
+                    break;
+                }
+                std::thread::sleep(Duration::from_millis(10));
+            }
+        }
+        if !run.worker.alive() {
+            exited = true;
+            break;
+        }
+    }
+    if exited {
+        // drain what is left in the channel
+        for _ in 0..200 {
+            match run.worker.channel.read_message_blocking_timeout(Some(Duration::from_millis(50))) {
+                Ok(r) => run.absorb(r),
+                Err(_) => break,
+            }
+        }
+        if run.worker.join().is_err() {
+            let (loc, msg) = take_worker_panic().unwrap_or(("?".into(), "?".into()));
+            fail!(format!("C08/worker-panicked:{}", short_loc(&loc)), "the worker thread panicked during {} at {loc}: {msg}", if soft { "SoftStop" } else { "HardStop" });
+        }
+    } else if soft {
+        let hang_known = would_hang || tail_removes > 0;
+        fail!(
+            format!("C08/softstop-never-finishes:{}", if hang_known { "listener-removed" } else if traffic_rounds > 0 { "after-traffic" } else { "unexplained" }),
+            "SoftStop {} was answered with {} processing and {} final answers, the worker thread still runs {} s later with no client connected; RemoveListener commands received: {}, listener slab entries freed by DeactivateListener: {}, listeners added: {}",
+            run.sent[stop].id,
+            run.sent[stop].processing,
+            run.sent[stop].terminal.len(),
+            STOP_DEADLINE.as_secs(),
+            models.books.removes_seen + tail_removes,
+            models.books.slab_removed,
+            models.books.adds_ok
+        );
+    } else {
+        fail!("C08/hardstop-never-finishes", "HardStop {} sent, the worker thread still runs {} s later", run.sent[stop].id, STOP_DEADLINE.as_secs());
+    }
+    // the tail and the stop verb: exactly one final answer each
+    if !soft {
+        if let Some(&t) = tail_ids.iter().find(|&&t| run.sent[t].terminal.is_empty()) {
+            fail!(
+                format!("C08/unanswered-before-hardstop:{}", run.sent[t].verb),
+                "request {} ({}) was written right before HardStop {}: the worker exited without ever answering it (tail of {} commands, {} answered)",
+                run.sent[t].id,
+                run.sent[t].verb,
+                run.sent[stop].id,
+                tail_ids.len(),
+                tail_ids.iter().filter(|&&t| !run.sent[t].terminal.is_empty()).count()
+            );
+        }
+    }
+    run.judge(body_end, run.sent.len(), if soft { "after SoftStop and the worker's exit" } else { "after HardStop and the worker's exit" })?;
+    if !run.sent[stop].ok() {
+        fail!(format!("C08/stop-not-ok:{}", run.sent[stop].verb), "{} answered {:?}: {:?}", run.sent[stop].verb, run.sent[stop].status(), run.sent[stop].terminal.first().map(|r| r.message.clone()));
+    }
+
+    // ---------------------------------------------------------------- report
+    let kinds: BTreeSet<&str> = run.sent[..body_end].iter().take(body_end.saturating_sub(pool.len() + 2)).map(|s| s.verb).chain(tail_ids.iter().map(|&t| run.sent[t].verb)).collect();
+    let generated = body_end.saturating_sub(pool.len() + 2);
+    let failures = run.sent[..generated].iter().filter(|s| s.failed()).count() + tail_ids.iter().filter(|&&t| run.sent[t].failed()).count();
+    rep.nontrivial = failures >= 1 && kinds.len() >= 3;
+    rep.excluded_known = excluded;
+    rep.inner_evaluations = run.sent.len() as u64 + probed + routed;
+    rep.class_if(failures >= 1, "has_failure");
+    rep.class_if(kinds.len() >= 3, "kinds>=3");
+    rep.class_if(kinds.len() >= 10, "kinds>=10");
+    rep.class_if(max_burst >= 8, "burst>=8");
+    rep.class_if(max_burst >= 30, "burst>=30");
+    rep.class_if(traffic_rounds > 0, "traffic");
+    rep.class_if(traffic_200 > 0, "traffic_reached_backend");
+    rep.class_if(traffic_other > 0, "traffic_answered_by_sozu_or_cut");
+    rep.class_if(open_listeners > 0, "listener_open_at_end");
+    rep.class_if(routed > 0, "routed_probe_reached_backend");
+    rep.class_if(probe_excluded > 0, "k5_k7_probe_skipped");
+    rep.class_if(k1_skipped > 0, "k1_remove_listener_dropped");
+    rep.class_if(k6_skipped > 0, "k6_lease_lowering_dropped");
+    rep.class_if(k8_clamped > 0, "k8_zero_flood_knob_clamped");
+    rep.class_if(!models.books.ok_but_rejected.is_empty(), "ok_but_configstate_rejects");
+    rep.class_if(!models.books.returned.is_empty(), "sockets_returned");
+    rep.class_if(run.events > 0, "events_seen");
+    rep.class_if(soft, "softstop");
+    rep.class_if(!soft, "hardstop");
+    rep.class_if(!tail_ids.is_empty(), "tail_with_stop");
+    rep.class_if(run.sent.iter().any(|s| s.processing > 0), "processing_notice_seen");
+    let blocked_failed = run.sent.iter().any(|s| {
+        s.failed()
+            && matches!(&s.req.request_type, Some(T::ActivateListener(a)) if env.listen.iter().position(|l| SocketAddr::from(a.address) == *l).map(|n| case.blocked & (1 << n) != 0).unwrap_or(false))
+    });
+    rep.class_if(blocked_failed, "activation_failed_on_occupied_port");
+    for k in &kinds {
+        rep.class(format!("verb:{k}"));
+    }
+    for (_, v) in &models.books.ok_but_rejected {
+        rep.class(format!("ok_but_rejected:{v}"));
+    }
+    Ok(rep)
+}
+
+// ------------------------------------------------------------------------------------------------
+
+const SUB: &str = "seq";
+
+/// strict reproducers of the known deviations: (file stem, expected signature, case)
+fn known_cases() -> Vec<(&'static str, &'static str, Case)> {
+    let l0 = cmd::sa(cmd::LISTENER_ADDRS[0]);
+    let http_listener = || rq(T::AddHttpListener(sozu_command_lib::config::ListenerBuilder::new_http(l0).to_http(None).expect("http listener")));
+    let zero_knob_listener = || {
+        let mut l = sozu_command_lib::config::ListenerBuilder::new_http(l0).to_http(None).expect("http listener");
+        l.h2_max_rst_stream_per_window = Some(0);
+        rq(T::AddHttpListener(l))
+    };
+    let activate = || rq(T::ActivateListener(ActivateListener { address: l0, proxy: ListenerType::Http as i32, from_scm: false }));
+    let deactivate = || rq(T::DeactivateListener(sozu_command_lib::proto::command::DeactivateListener { address: l0, proxy: ListenerType::Http as i32, to_scm: false }));
+    let remove = || rq(T::RemoveListener(sozu_command_lib::proto::command::RemoveListener { address: l0, proxy: ListenerType::Http as i32 }));
+    let cluster = || rq(T::AddCluster(Cluster { cluster_id: "c0".into(), ..Default::default() }));
+    let backend = || {
+        rq(T::AddBackend(AddBackend {
+            cluster_id: "c0".into(),
+            backend_id: "b0".into(),
+            address: cmd::sa(cmd::BACKEND_ADDRS[0]),
+            sticky_id: None,
+            load_balancing_parameters: Some(LoadBalancingParams { weight: 100 }),
+            backup: None,
+        }))
+    };
+    let front = || rq(T::AddHttpFrontend(RequestHttpFrontend { cluster_id: Some("c0".into()), address: l0, hostname: "a.x.com".into(), path: PathRule::prefix("/".to_string()), position: 2, ..Default::default() }));
+    let lease = |detail: i32| rq(T::SetMetricDetail(SetMetricDetail { client_id: "top:1".into(), detail: Some(detail), ttl_seconds: Some(60), clear: None, reason: None, peer_pid: None, peer_session_ulid: None }));
+    let status = || rq(T::Status(Status {}));
+    let case = |reqs: Vec<Request>, soft: bool, tail: u8| Case { reqs, bursts: vec![1], blocked: 0, traffic: None, traffic_host: 0, soft, tail, strict: true };
+    vec![
+        ("seq-known-K1-remove-listener-underflow", "C08/worker-panicked:lib/src/server.rs:2121", case(vec![remove(), remove(), remove(), remove(), status()], false, 0)),
+        ("seq-known-K2-softstop-after-remove-listener", "C08/softstop-never-finishes:listener-removed", case(vec![http_listener(), remove()], true, 0)),
+        ("seq-known-K3-answer-lost-before-hardstop", "C08/unanswered-before-hardstop:Status", case(vec![cluster(), status()], false, 1)),
+        ("seq-known-K4-failed-frontend-stays-in-view", "C08/view-differs-after-failure:AddHttpFrontend", case(vec![front(), cluster()], false, 0)),
+        (
+            "seq-known-K5-frontends-lost-when-listener-readded",
+            "C08/route-differs-from-view:listener-readded",
+            case(vec![http_listener(), activate(), cluster(), backend(), front(), deactivate(), remove(), http_listener(), activate()], false, 0),
+        ),
+        (
+            "seq-known-K7-reactivated-listener-never-accepts",
+            "C08/route-differs-from-view:listener-reactivated",
+            case(vec![http_listener(), activate(), cluster(), backend(), front(), deactivate(), activate()], false, 0),
+        ),
+        ("seq-known-K8-zero-flood-knob-accepted-on-add", "C08/worker-panicked:lib/src/protocol/mux/h2.rs:1026", {
+            // the assertion sits in the H2 connection constructor: an h2c cluster, reached by the traffic phase
+            let h2_cluster = rq(T::AddCluster(Cluster { cluster_id: "c0".into(), http2: Some(true), ..Default::default() }));
+            let front_for = |host: &str| rq(T::AddHttpFrontend(RequestHttpFrontend { cluster_id: Some("c0".into()), address: l0, hostname: host.into(), path: PathRule::prefix("/".to_string()), position: 2, ..Default::default() }));
+            let mut reqs = vec![zero_knob_listener(), activate(), h2_cluster, backend(), front_for("a.x.com"), front_for("b.x.com"), front_for("x.com")];
+            reqs.extend((0..6).map(|_| status()));
+            let mut c = case(reqs, false, 0);
+            c.traffic = Some(1);
+            c
+        }),
+        ("seq-known-K6-lease-renewed-lower-asserts", "C08/worker-panicked:lib/src/metrics/mod.rs:638", case(vec![lease(3), lease(1)], false, 0)),
+    ]
+}
+
+/// `vp C08 --shard 0/1 --emit-known`: run the strict reproducers and (re)write the regression files
+fn emit_known() -> i32 {
+    lab::init_ports(0);
+    init_own_ports(0);
+    install_worker_panic_hook();
+    let dir = std::path::Path::new(engine::VERIF_ROOT).join("regressions").join("C08");
+    let _ = std::fs::create_dir_all(&dir);
+    let mut bad = 0;
+    for (stem, want, case) in known_cases() {
+        let (sig, msg) = match scenario(&case) {
+            Err(f) => (f.signature, f.message),
+            Ok(_) => ("<held>".to_string(), String::new()),
+        };
+        println!("{stem}: {sig}{}", if sig == want { String::new() } else { format!("   (EXPECTED {want})") });
+        println!("    {}", engine::truncate(&msg, 600));
+        if sig != want {
+            bad += 1;
+            continue;
+        }
+        let body = serde_json::json!({"property": "C08", "sub": SUB, "signature": sig, "message": msg, "seed": 0, "case": case});
+        let _ = std::fs::write(dir.join(format!("{stem}.json")), serde_json::to_string_pretty(&body).unwrap());
+    }
+    bad
+}
+
+fn child(args: &Args, total: u64) -> Stats {
+    lab::init_ports(args.shard.map(|s| s.0).unwrap_or(0));
+    init_own_ports(args.shard.map(|s| s.0).unwrap_or(0));
+    install_worker_panic_hook();
+    let flaky = std::cell::Cell::new(0u64);
+    // every scenario runs on a worker of its own; a failure is confirmed twice more before it is reported
+    let check = |case: &Case| -> CheckResult {
+        let first = scenario(case);
+        let Err(f) = first else { return first };
+        for _ in 0..2 {
+            if let Err(f2) = scenario(case) {
+                return Err(if f2.signature == f.signature { f2 } else { f });
+            }
+        }
+        flaky.set(flaky.get() + 1);
+        let mut rep = CaseReport::default();
+        rep.class("flaky_unconfirmed");
+        Ok(rep)
+    };
+    let mut st = engine::run_lab_shard(args, "C08", SUB, total, strategy(), check, 48);
+    st.flaky_unconfirmed += flaky.get();
+    st
+}
+
+pub fn run(args: &Args) -> i32 {
+    if args.extra.iter().any(|e| e == "--emit-known") {
+        return emit_known();
+    }
+    if args.shard.is_some() {
+        let st = child(args, args.cases(1200, 32000));
+        return engine::shard::child_finish(args, &st);
+    }
+    let mut ev = Evidence::new(args, "exploration");
+    ev.rule(
+        SUB,
+        "one fresh worker thread per sequence. Sequence: 5..60 worker requests = the configuration verbs of the main process's fan-out set (gens::cmd: Add/Remove/Update/Activate/Deactivate/Replace/Set over small colliding pools, valid and invalid values) mixed 7:2 with SetMaxConnectionsPerIp, QueryMaxConnectionsPerIp, SetMetricDetail, ConfigureMetrics, Logging, Status, QueryClusterById, QueryClustersByDomain, QueryClustersHashes, QueryCertificatesFromWorkers, QueryMetrics, ReturnListenSockets; listener-directed commands are pointed at an earlier-added listener 2 times in 3; half of the sequences contain a working listener/cluster/backend/frontend scaffold spread over the sequence. The six listener addresses are real loopback ports, each occupied by the harness with probability 0.22 (activation must fail); backend addresses 0,1 are mock HTTP servers, 2,3 are closed ports. Commands are written in bursts of generated sizes (1..60) before any answer is read, in 1 of 2 sequences with HTTP/1.1 requests to every active HTTP listener between the write and the read; the last 0..3 commands are written together with the final SoftStop/HardStop. Oracle: (1) after a closing Status and 150 ms of silence every id has exactly one Ok/Failure answer (Processing and Event messages are free), no foreign id; (2) QueryClusterById for every pool id and QueryClustersHashes equal a ConfigState fed the commands answered Ok; (3) connect() to each listener address succeeds iff that model has an active HTTP/HTTPS/TCP listener there, and a GET for a plain frontend of the model reaches a mock backend of its cluster; (4) SoftStop/HardStop get exactly one Ok and the worker thread ends within 6 s. A failing sequence is run twice more on new workers before it is reported. Non-trivial: >= 1 command answered Failure and >= 3 verb kinds; distinct by case hash.",
+    );
+    ev.assume("Add*Listener commands are sent with active=false, as ListenerBuilder and the CLI build them (activation is the separate ActivateListener step); an Add*Listener that claims active=true is not exercised");
+    ev.assume("DeactivateListener.to_scm and ActivateListener.from_scm stay false; after ReturnListenSockets the harness takes and closes the sockets like a main process would and stops probing those addresses");
+    ev.assume("master-only verbs (SaveState, LoadState, ListWorkers, ListFrontends, ListListeners, UpgradeMain, UpgradeWorker, SubscribeEvents, ReloadConfiguration, CountRequests, QueryCertificatesFromTheState, QueryHealthChecks) and a request without request_type are outside the domain");
+    ev.assume("known deviations K1..K8 (see the module comment) are steered around when `strict` is false and counted in excluded_known; their strict reproducers are the regression files");
+    ev.floor(SUB, "has_failure", 0.6);
+    ev.floor(SUB, "kinds>=3", 0.9);
+    ev.floor(SUB, "burst>=8", 0.2);
+    ev.floor(SUB, "traffic", 0.06);
+    ev.floor(SUB, "listener_open_at_end", 0.12);
+    ev.floor(SUB, "softstop", 0.1);
+    ev.floor(SUB, "routed_probe_reached_backend", 0.03);
+    engine::shard::run_sharded(&mut ev, args, SUB, 16, Duration::from_secs(args.tier.pick(600, 5400)));
+    ev.finish()
 }
